@@ -17,6 +17,7 @@ case "$p" in
  C15) t='TestVerifRegressD6$|TestVerifRegressD7$' ;;
  C19) t='TestVerifRegressD8$' ;;
  C09) t='TestVerifRegressD5$' ;;
+ C05|C03) t='TestVerifRegressD9$' ;;
 esac
 if [ -n "$t" ]; then
  mkdir -p replays/$p
